@@ -371,7 +371,12 @@ def _observe(coin, ses_or_mut, puzzles, tx, notes):
         else:
             att.append([[-1, -1]])
             exc = rep["exc"].get("public_pairs_signed", "?")
-        notes.append([features(coin, tx, pos), exc])
+        foreign = False
+        if isinstance(ses_or_mut, Mutator) and ses_or_mut.unl[pos]:
+            m = ses_or_mut.meta[pos]
+            u = tx.unspents[pos]
+            foreign = ses_or_mut.unl[pos] != m["id"] or u is None or bytes(u.script) not in (m["spk"], m["spk"] + b"\x61")
+        notes.append([features(coin, tx, pos), exc, foreign])
     return att
 
 
